@@ -294,6 +294,18 @@ class Spec:
         )
 
 
+class _Neutral:
+    """The neutral element of every ``+``: ``NEUTRAL + x`` is ``x``"""
+
+    def __add__(self, other):
+        return other
+
+    def __repr__(self):
+        return "NEUTRAL"
+
+
+NEUTRAL = _Neutral()
+
 TRUTHY_TOOLS = ("filter", "filterfalse", "compress", "all", "any", "takewhile", "dropwhile")
 
 TOOLS = {}
@@ -1078,6 +1090,11 @@ class _Sum(AggBase):
         else:  # tuples
             items = [tuple(g.items(g.ch.draw(3))) for _ in range(n)]
             start = tuple(g.items(g.ch.draw(2)))
+        if g.cfg.odd_items and g.ch.chance(1, 12):
+            # strings (or bytes) summed onto a neutral start object (``start + x`` is ``x``): the builtin refuses a *start*
+            # that is a string, nothing else - what the running total becomes is not its business
+            items = [(b"a", b"bc", b"")[g.ch.draw(3)] if n % 2 else ("a", "bc", "")[g.ch.draw(3)] for _ in range(n)]
+            start = NEUTRAL
         return Spec("sum", [g.src(items)], [], {"start": start})
 
     def a(self, L, spec, S, F):
